@@ -189,7 +189,7 @@ Theorem astep_refines : forall (w : world) s op, ainv w s -> aop_ok op ->
 Proof.
   intros w s op Hinv Hok.
   pose proof (ainv_hwf _ _ Hinv) as Hwf.
-  destruct op as [i n init|i j|i j|i j|i j|i j|i j|i x|i k|i|i|i|i n init|i n|i n|i n|i|i n];
+  destruct op as [i n init|i j|i j|i j|i j|i j|i j|i x|i k|i|i|i|i n init|i n|i n|i n|i|i n|i k1 k2|i];
     cbn [astep aspec fst snd aop_ok] in *.
   - (* ANewSized *)
     destruct (owns_free _ _ _ Hwf (ainv_obj _ _ i Hinv)) as (h1 & Hf & Hwf1 & Hn1 & Hfr1).
@@ -389,6 +389,27 @@ Proof.
     eexists. split; [reflexivity|].
     set_inv Hinv; [exact Hwf | reflexivity | | others | newblk].
     rewrite upd_same. apply owns_shrink; [assumption|lia].
+  - (* ASwap *)
+    pose proof (ainv_obj _ _ i Hinv) as Hoi. destruct (owns_len _ _ _ Hoi) as (Hlen & _). rewrite Hlen.
+    destruct ((k1 <? size (ob w i)) && (k2 <? size (ob w i))) eqn:Ek; [|eauto].
+    apply andb_true_iff in Ek. destruct Ek as (Hk1 & Hk2). apply Nat.ltb_lt in Hk1, Hk2.
+    unfold rd1.
+    rewrite (owns_read _ _ _ k1 1 Hoi) by lia. rewrite (firstn1_skipn_nth _ d) by lia. cbn [bind].
+    rewrite (owns_read _ _ _ k2 1 Hoi) by lia. rewrite (firstn1_skipn_nth _ d) by lia. cbn [bind].
+    destruct (owns_write_in (hp w) (ob w i) (s i) k1 [nth k2 (s i) d] Hwf Hoi ltac:(cbn [length]; lia))
+      as (h1 & Hw1 & Hwf1 & Hn1 & Hfr1 & Hown1).
+    unfold wr1. rewrite Hw1. cbn [bind].
+    destruct (owns_write_in h1 (ob w i) _ k2 [nth k1 (s i) d] Hwf1 Hown1 ltac:(cbn [length]; lia))
+      as (h2 & Hw2 & Hwf2 & Hn2 & Hfr2 & Hown2).
+    rewrite Hw2. cbn [bind]. eexists. split; [reflexivity|].
+    apply (ainv_ob_ext (mkW h2 (upd (ob w) i (ob w i)))).
+    + reflexivity.
+    + intros k. cbn [ob]. destruct (Nat.eq_dec k i) as [->|Hk]; [now rewrite upd_same | now rewrite upd_other].
+    + set_inv Hinv; [exact Hwf2 | | | others | newblk].
+      * intros b Hlt Hne. rewrite Hfr2 by assumption. now apply Hfr1.
+      * rewrite upd_same. exact Hown2.
+  - (* AIter *)
+    rewrite (owns_read_all _ _ _ (ainv_obj _ _ i Hinv)). cbn [bind]. eauto.
 Qed.
 
 Lemma ainv0 : ainv world0 spec0.
